@@ -71,7 +71,28 @@ func (w *World) reopenResized(rs resizeSpec) bool {
 					"Open (resize) hit an injected I/O fault in its maintenance transactions and returned a File with lock state shared=%d pending=%v reservedFree=%v", shared, pending, resFree)
 				return false
 			}
+			if got := int(f.VerifSnapshot().MaxPages); got != rs.NewPages {
+				w.violate("resize-limit", "resize-limit:faulty-open", "Open (resize) hit an injected I/O fault and returned a File whose allocator limit is %d pages, expected %d", got, rs.NewPages)
+				return false
+			}
 			if w.guard("File.Close", func() { err = f.Close() }) {
+				return false
+			}
+			// Open reported success, so the resize happened: a later plain open
+			// (no size given) must report the new limit
+			resizeOpts := w.OpenOpts
+			w.OpenOpts = func(o *txfile.Options) { o.MaxSize, o.Prealloc = 0, false }
+			ok := w.Open()
+			w.OpenOpts = resizeOpts
+			if !ok {
+				return false
+			}
+			if st, want := w.Obs.Last(), w.pageBytes(rs.NewPages); st.MaxSize != want {
+				w.violate("plain-open-limit", "plain-open-limit:faulty-open", "a resizing Open that hit an injected I/O fault returned success, but a plain open afterwards reports MaxSize=%d, expected %d", st.MaxSize, want)
+				return false
+			}
+			w.Res.Add("plain_open_after_faulty_resize", 1)
+			if !w.CloseFile() {
 				return false
 			}
 		} else {
